@@ -59,6 +59,10 @@ CHECKS = {
    text="Requests: TLC enumerates import graphs over four files in three directories plus a well-known type, target sets, include_imports/include_wkt and the strategy, checks ExactlyOnce and ClosedAndOrdered for the transcribed bookkeeping and emits every request; the real requests must match (file_to_generate and proto_file order, source_file_descriptors count) and source-retention options must be stripped from proto_file only. Responses: TLC enumerates two plugins with three spellings of output directories (incl. nested) and seven file-name spellings (incl. escaping and absolute) and insertion points, checks Contained and NothingOnFailure and emits rejection class and written set; the real ValidatePluginResponses + ResponseWriter run on a scratch tree with sentinels.",
    note="Plugin processes are not started (the responses are given); type filters and managed mode per plugin are C12 / C18.",
    ref="4/C17"),
+ "C16": dict(engine="config", technique="TLC on BufYAML.tla (what a v2 document means after reading), Samples.tla and Migrate.tla; documents and workspaces replayed through the real readers, writers and the migrator",
+   text="BufYAML.tla enumerates v2 buf.yaml documents (module directories incl. '.' and overlapping ones, names, includes/excludes, per-module and top-level lint/breaking shapes incl. switched-off checks and ignore_only entries pointing into the second module), checks that top-level paths stay in their module and reach later modules, and emits the effective configuration of every module; the real reader must produce exactly that, write-then-read must preserve every accessor and writing must be idempotent. Samples.tla enumerates feature combinations of buf.gen.yaml v1/v2 (all input kinds, managed sections, plugin options) and buf.work.yaml for the same round trip on all accessors. Migrate.tla enumerates v1/v1beta1 workspaces (single module or buf.work.yaml, per-module lint settings incl. both allow-Empty switches, ignore paths, breaking category); the real migrator runs and files built, lint annotations and configured breaking rules per module must be unchanged.",
+   note="Documents come from shapes, not arbitrary YAML; buf.lock is not enumerated; the round-trip oracle is the reader itself plus, for buf.yaml, the specification's Effective.",
+   ref="4/C16"),
 }
 
 NOT_APPLICABLE = {}
